@@ -209,7 +209,15 @@ def run(chk, ctx):
                 emitters.setdefault(fi.short, set()).add(n.value)
     stray = {k: sorted(v) for k, v in emitters.items()
              if k not in ladder_funcs}
-    chk.ob('C11.W', 'integer tag literals', not stray and bool(emitters),
+    arm_tags = set()
+    for legacy in (False, True):
+        arm_tags |= {a.tag for _s, a in tables.ladder_arms(ctx,
+                                                           legacy)['arms']}
+    # (vacuity guard: the tags are found either as literals in the ladder
+    # functions or as tags of the analysed ladder arms, e.g. when they live
+    # in a module-level table)
+    chk.ob('C11.W', 'integer tag literals', not stray and
+           (bool(emitters) or bool(arm_tags & int_tags)),
            'integer tag literals appear in %r' % (sorted(emitters),),
            detail={'outside_ladder': stray}, site='pamqp/encode.py')
     _fi, P, arms, _rej, _it = tables.value_arms(ctx)
